@@ -176,3 +176,16 @@ Definition assemble (terms : list (nat * N)) (bs : list N) : N :=
 
 (* ---- Part 4 ---- *)
 Inductive sk : Type := Sk (label : string) (kids : list sk).
+
+(* ---- Part 5 (phase 5): indirect() as the ordered statements of its loop ---- *)
+Inductive imeth : Type := MUnmarshaler | MTextUnmarshaler.
+Inductive istep : Type :=
+| IkAddrNamed            (* before the loop: a named addressable non-pointer value is replaced by its address *)
+| IkIfaceDescend         (* a non-nil interface: a NEW zero value of the dynamic type becomes the destination *)
+| IkBreakNonPtr          (* if v.Kind() != reflect.Ptr { break } *)
+| IkBreakNull            (* if decodingNull && v.CanSet() { break } *)
+| IkSelfPtr              (* the interface-pointing-to-itself guard *)
+| IkAllocNil             (* if v.IsNil() { v.Set(reflect.New(v.Type().Elem())) } *)
+| IkMethods (order : list imeth)   (* the type assertions, in source order *)
+| IkElem.                (* v = v.Elem() (or back to the original value after Addr) *)
+
